@@ -508,8 +508,9 @@ Cancelling ==
   /\ UNCHANGED <<now, cfg, ver, sil, last, brk, elig>>
 
 \* config reload: the old dispatcher is stopped (see Cancelling) and the new one is built from
-\* the new configuration, which may change the receiver's integrations
-Reloading(integs) ==
+\* the new configuration, which may change the receivers' integrations and the routes' options
+\* (the tree itself - route keys, matchers, order - stays as it is in the scenarios)
+Reloading(integs, routes) ==
   /\ cancd' = [seen |-> cancd.seen,
                dead |-> [x \in DOMAIN cancd.dead \cup cancd.seen \cup DOMAIN fl |->
                            IF x \in DOMAIN cancd.dead THEN cancd.dead[x] ELSE now],
@@ -524,7 +525,7 @@ Reloading(integs) ==
                \* the marker of a stopped dispatcher's group may be gone or still there
                mby |-> [g \in DOMAIN cancd.mby |-> [cancd.mby[g] EXCEPT !.known = FALSE]], lastReload |-> now]
   /\ fl' = << >>
-  /\ cfg' = [cfg EXCEPT !.integs = integs]
+  /\ cfg' = Derive([cfg EXCEPT !.integs = integs, !.routes = routes])
   /\ elig' = [p \in {q \in DOMAIN elig : \E x \in SeqToSet(integs) : x.recv = Opt(q[2]).recv /\ x.name = q[3]} |-> elig[p]]
   /\ chk' = {}
   /\ UNCHANGED <<now, ver, sil, last, brk>>
